@@ -1,6 +1,8 @@
 package h
 
 import (
+	"time"
+
 	z "github.com/Oudwins/zog"
 	v "github.com/Oudwins/zog/zzverif"
 )
@@ -949,6 +951,8 @@ type Dest struct {
 	LN   []Inner
 	C    int
 	U    int // never named by a schema
+	F    float64
+	W    time.Time
 }
 
 func destField(d any, key string) any {
@@ -977,6 +981,10 @@ func destField(d any, key string) any {
 			return &p.LN
 		case "c":
 			return &p.C
+		case "f":
+			return &p.F
+		case "w":
+			return &p.W
 		}
 	case *Inner:
 		switch key {
